@@ -105,6 +105,7 @@ type c19Plan struct {
 	Fix                bool
 	DevDelay, OwnDelay time.Duration
 	// part 2 only
+	DoubleYield    bool // side probe: the device module yields twice in a row (see c19Pipe.sideProbe)
 	BlockInReceive bool // the device module stops inside Receive until its context is cancelled (at most 10 s)
 }
 
@@ -195,6 +196,7 @@ type c19Owner struct {
 	endSent   bool
 	devGot    int
 	fin       bool
+	finBuf    []byte
 	active    bool
 	bad       []string
 }
@@ -238,8 +240,15 @@ func (o *c19Owner) HandleInfo(ctx context.Context, name string, body io.Reader) 
 			}
 		}
 	case "fin":
+		// the device-side chunker cuts a logical message wherever a 68 is full, so even this five-byte value may arrive in
+		// two fragments (two HandleInfo calls): collect until it decodes
+		b, _ := io.ReadAll(body)
+		o.finBuf = append(o.finBuf, b...)
 		var total int
-		if err := cbor.NewDecoder(body).Decode(&total); err != nil {
+		if err := cbor.Unmarshal(o.finBuf, &total); err != nil {
+			if len(o.finBuf) < 9 {
+				return nil
+			}
 			return err
 		}
 		o.fin = true
@@ -293,7 +302,7 @@ func (o *c19Owner) ProduceInfo(ctx context.Context, p *serviceinfo.Producer) (bo
 		o.endSent = true
 		return false, false, nil
 	}
-	if o.calls > 5000 {
+	if o.calls > 5000 || (o.plan.DoubleYield && o.calls > 60) {
 		return false, false, fmt.Errorf("c19 owner module: device never finished")
 	}
 	return false, o.fin, nil
@@ -401,6 +410,16 @@ func (d *c19Dev) Yield(ctx context.Context, respond func(string) io.Writer, yiel
 // for a device running alone as well (no concurrency involved), so it is outside this property; see the note in RunC19.
 func (d *c19Dev) stream(respond func(string) io.Writer, yield func()) error {
 	d.streamed = true
+	if d.plan.DoubleYield {
+		b := make([]byte, d.plan.DevSize)
+		d.gen.fill(b, 0)
+		h := len(b) / 2
+		_, _ = respond("data").Write(b[:h])
+		yield()
+		yield()
+		_, _ = respond("data").Write(b[h:])
+		return cbor.NewEncoder(respond("fin")).Encode(d.plan.DevSize)
+	}
 	small := d.rng.Intn(2) == 0
 	for off := 0; off < d.plan.DevSize; {
 		n := 1 + d.rng.Intn(3000)
@@ -929,6 +948,9 @@ func (pt *c19Part1) batch(dp *c19Deploy, n, procs int, sizes []int) {
 	runtime.GOMAXPROCS(prev)
 	wall := time.Since(t0)
 	c.Count("batch_wall", fmt.Sprintf("N=%d:%s", n, c19DurBucket(wall)))
+	defer func() {
+		c.Note("batch %d (%s): N=%d GOMAXPROCS=%d chains took %.1fs, with checks and solo re-runs %.1fs", id, dp.mode(), n, procs, wall.Seconds(), time.Since(t0).Seconds())
+	}()
 	if hung {
 		return // the result slots may still be written: do not read them
 	}
@@ -1005,9 +1027,17 @@ func (pt *c19Part1) batch(dp *c19Deploy, n, procs int, sizes []int) {
 		if alone == "ok" || alone == "not-run" {
 			c.Fail("concurrent-run-failed:"+step, fmt.Sprintf("%s failed among %d concurrent devices (%s, GOMAXPROCS=%d): %s; alone: %s", r.step, n, dp.mode(), procs, r.err, alone), "concurrent.run", p, core.Obs{Impl: r.outcome()})
 		} else {
-			c.Count("fails_alone_too", r.plan.cfgKey()+" "+clipS(alone, 80))
+			c.Count("fails_alone_too", r.plan.cfgKey()+" "+clipS(c19StripTime(alone), 260))
 		}
 	}
+}
+
+// c19StripTime removes the timestamp of an FDO error message.
+func c19StripTime(s string) string {
+	if i := strings.Index(s, " +0000 UTC"); i >= 19 {
+		return s[:i-19] + s[i+10:]
+	}
+	return s
 }
 
 func c19DurBucket(d time.Duration) string {
@@ -1033,6 +1063,8 @@ func (pt *c19Part1) run(specs []env.KeySpec, pooled bool, sched [][2]int, sizes 
 	}
 	defer dp.e.Close()
 	// each key type alone first: the outcome a device obtains without company
+	tSolo := time.Now()
+	defer func() { c.Note("deployment (%s) lived %.1fs", dp.mode(), time.Since(tSolo).Seconds()) }()
 	for _, spec := range specs {
 		suites := c19Suites(spec)
 		pl := &c19Plan{Spec: spec, Enc: protocol.X509KeyEnc, Suite: suites[0], Cipher: kex.A128GcmCipher, NMods: 3, DevSize: 3000, OwnSize: 3000,
@@ -1041,6 +1073,7 @@ func (pt *c19Part1) run(specs []env.KeySpec, pooled bool, sched [][2]int, sizes 
 			c.Fail("fails-alone", fmt.Sprintf("%s (%s): %s", pl.cfgKey(), dp.mode(), out), "concurrent.solo", pl.params(), core.Obs{Impl: out})
 		}
 	}
+	c.Note("solo baseline (%s): %d key types in %.1fs", dp.mode(), len(specs), time.Since(tSolo).Seconds())
 	for _, s := range sched {
 		pt.batch(dp, s[0], s[1], sizes)
 	}
@@ -1257,15 +1290,56 @@ func (pp *c19Pipe) run(sc c19Scenario) {
 	}
 }
 
+// sideProbe documents a defect that is NOT a violation of this property (a device running alone is hit the same way) but
+// that decides which device-module behaviours the runs above may use: when a forced message break (yield) is the first
+// thing of a 68 - a module yields twice in a row, or a write larger than the MTU happens to end exactly at the end of a
+// 68 and is followed by a yield - exchangeServiceInfoRound sends an empty 68 without IsMoreServiceInfo ("likely due to a
+// yield") and returns; the service info the module wrote after the break stays in the round's pipe, which is then
+// abandoned: the data is silently lost.
+func (pp *c19Pipe) sideProbe() {
+	c, dp := pp.c, pp.dp
+	pp.n++
+	pl := c19Plan{Tag: fmt.Sprintf("c19-p%d", pp.n), Spec: env.P256, Enc: protocol.X509KeyEnc, Suite: kex.ECDH256Suite, Cipher: kex.A128GcmCipher,
+		DevSize: 200, OwnSize: 0, DoubleYield: true, Seed: 1}
+	ctx, cancel := context.WithTimeout(context.Background(), 60*time.Second)
+	defer cancel()
+	dp.e.OwnerMTU = 0
+	dev, err := dp.newDevice(ctx, pl.Spec, pl.Enc, pl.Tag)
+	if err != nil {
+		return
+	}
+	cfg, t := dp.to2Config(dev, &pl, pl.Tag)
+	dp.reg.add(t.tag, t.sess)
+	defer dp.reg.drop(t.tag)
+	_, err = dp.e.TO2(ctx, dev, nil, cfg)
+	got, fin := -1, false
+	t.sess.mu.Lock()
+	if len(t.sess.owners) == 1 {
+		o := t.sess.owners[0]
+		o.mu.Lock()
+		got, fin = o.devGot, o.fin
+		o.mu.Unlock()
+	}
+	t.sess.mu.Unlock()
+	lost := got != pl.DevSize || !fin
+	c.Count("side_probe_double_yield", fmt.Sprintf("lost=%v", lost))
+	if lost {
+		c.Note("side finding (not a C19 violation: no concurrency involved): a device module that wrote 100 bytes, yielded twice and wrote 100 more bytes plus a closing message "+
+			"got only %d of 200 bytes (closing message arrived: %v) through to the owner module; TO2 ended with: %v. exchangeServiceInfoRound (to2.go) treats a forced break at the start of a 68 as "+
+			"'nothing more to send' and the rest of the round's device service info is dropped. The same happens when a write larger than the MTU ends exactly at the end of a 68 and is followed by a yield "+
+			"(seen with a 2532-byte write). The runs of this property therefore never yield after a large write.", got, fin, err)
+	}
+}
+
 // fsimRun: one TO2 with the library's own fsim device modules (download, upload, wget with its download goroutine) so
 // that the race detector sees them at work. urlFirst: a scripted owner module sends fdo.wget's url before name and sha-384
 // (the device module's own error text "name not sent before file download completed" shows that it expects this order to
 // be possible).
-func (pp *c19Pipe) fsimRun(size int, urlFirst bool, srvDelay time.Duration) {
+func (pp *c19Pipe) fsimRun(size int, urlFirst bool, nameAt int, srvDelay time.Duration) {
 	c, dp := pp.c, pp.dp
 	pp.n++
 	kind := "concurrent.fsim"
-	p := core.Params{"size": strconv.Itoa(size), "url_first": boolTF(urlFirst), "server_delay": srvDelay.String()}
+	p := core.Params{"size": strconv.Itoa(size), "url_first": boolTF(urlFirst), "name_at_round": strconv.Itoa(nameAt), "server_delay": srvDelay.String()}
 	c.Rep.Evaluations++
 	c.Count("pipeline_mode", "fsim")
 	base, err := os.MkdirTemp(WorkDir(), "c19-fsim-")
@@ -1311,7 +1385,7 @@ func (pp *c19Pipe) fsimRun(size int, urlFirst bool, srvDelay time.Duration) {
 			}
 			var w serviceinfo.OwnerModule = &fsim.WgetCommand{Name: "wget.bin", URL: u, Length: int64(len(data)), Checksum: sum[:]}
 			if urlFirst {
-				w = &c19WgetOwner{url: u.String(), name: "wget.bin", sum: sum[:]}
+				w = &c19WgetOwner{url: u.String(), name: "wget.bin", sum: sum[:], nameAt: nameAt}
 			}
 			yield("fdo.wget", w)
 		}
@@ -1372,6 +1446,7 @@ func (pp *c19Pipe) fsimRun(size int, urlFirst bool, srvDelay time.Duration) {
 type c19WgetOwner struct {
 	url, name string
 	sum       []byte
+	nameAt    int // the ProduceInfo call that carries name and sha-384 (default 2)
 	calls     int
 	done      bool
 	err       string
@@ -1395,14 +1470,18 @@ func (w *c19WgetOwner) HandleInfo(_ context.Context, name string, body io.Reader
 func (w *c19WgetOwner) ProduceInfo(_ context.Context, p *serviceinfo.Producer) (bool, bool, error) {
 	w.calls++
 	enc := func(v any) []byte { b, _ := cbor.Marshal(v); return b }
-	switch w.calls {
-	case 1:
+	at := max(w.nameAt, 2)
+	switch {
+	case w.calls == 1:
 		_ = p.WriteChunk("active", enc(true))
 		_ = p.WriteChunk("url", enc(w.url))
 		return false, false, nil
-	case 2:
+	case w.calls == at:
 		_ = p.WriteChunk("name", enc(w.name))
 		_ = p.WriteChunk("sha-384", enc(w.sum))
+		return false, false, nil
+	case w.calls < at:
+		time.Sleep(5 * time.Millisecond)
 		return false, false, nil
 	}
 	if w.calls > 3000 {
@@ -1567,13 +1646,10 @@ func RunC19(c *core.Ctx) {
 	sizes := []int{0, 100, 1000, 5000, 20000}
 	var sched [][2]int
 	if quick {
-		sched = [][2]int{{2, 1}, {8, 16}, {2, 2}, {8, 1}, {32, 16}}
-		if raceEnabled {
-			sched = [][2]int{{2, 1}, {8, 16}, {8, 1}, {32, 16}}
-		}
+		sched = [][2]int{{2, 1}, {8, 2}, {32, 16}}
 	} else {
 		sizes = append(sizes, 65536)
-		for rep := 0; rep < 3; rep++ {
+		for rep := 0; rep < 2; rep++ {
 			for _, n := range []int{2, 4, 8, 16, 32, 64} {
 				for _, procs := range []int{1, 2, 16} {
 					sched = append(sched, [2]int{n, procs})
@@ -1584,8 +1660,8 @@ func RunC19(c *core.Ctx) {
 	for _, pooled := range []bool{false, true} {
 		t1 := time.Now()
 		s := sched
-		if quick && pooled && len(s) > 3 {
-			s = [][2]int{{2, 2}, {8, 16}, {32, 2}}
+		if quick && pooled {
+			s = [][2]int{{2, 16}, {8, 1}, {32, 2}}
 		}
 		pt.run(specs, pooled, s, sizes)
 		c.Note("part 1 (%s): %.1fs", map[bool]string{false: "single connection", true: "pooled connections"}[pooled], time.Since(t1).Seconds())
@@ -1607,8 +1683,24 @@ func RunC19(c *core.Ctx) {
 				for _, om := range delays {
 					if quick {
 						// one volume combination per delay permutation, walking through all 27 volume combinations
+						// (time budget: 64 KB streams in six of the 27 runs, alternating direction; the others use 0 / 1 KB; the random
+						// runs below and the thorough tier have 64 KB in both directions at once)
 						v := i
-						pp.run(c19Scenario{mode: "normal", tr: tr, plan: c19Plan{Fix: true, DevDelay: dm, OwnDelay: om, NMods: mods[v%3], DevSize: vols[(v/3)%3], OwnSize: vols[(v/9)%3],
+						ds, os := vols[(v/3)%3], vols[(v/9)%3]
+						if ds == 65536 {
+							ds = 1024
+						}
+						if os == 65536 {
+							os = 1024
+						}
+						if i%5 == 0 {
+							if (i/5)%2 == 0 {
+								ds = 65536
+							} else {
+								os = 65536
+							}
+						}
+						pp.run(c19Scenario{mode: "normal", tr: tr, plan: c19Plan{Fix: true, DevDelay: dm, OwnDelay: om, NMods: mods[v%3], DevSize: ds, OwnSize: os,
 							Block: c.Rng.Intn(2) == 0, InYield: c.Rng.Intn(2) == 0}})
 					} else {
 						for v := 0; v < 27; v++ {
@@ -1620,6 +1712,8 @@ func RunC19(c *core.Ctx) {
 				}
 			}
 		}
+		c.Note("part 2, 27 delay permutations: %.1fs", time.Since(t2).Seconds())
+		t3 := time.Now()
 		nRand, nCancel, nFail, nFsim := 6, 6, 4, 2
 		if !quick {
 			nRand, nCancel, nFail, nFsim = 150, 80, 40, 12
@@ -1629,19 +1723,32 @@ func RunC19(c *core.Ctx) {
 			pp.run(c19Scenario{mode: "normal", tr: rd(), plan: c19Plan{DevDelay: rd(), OwnDelay: rd(), NMods: mods[c.Rng.Intn(3)], DevSize: vols[c.Rng.Intn(3)], OwnSize: vols[c.Rng.Intn(3)],
 				Block: c.Rng.Intn(2) == 0, InYield: c.Rng.Intn(2) == 0}})
 		}
+		c.Note("part 2, random delays: %.1fs", time.Since(t3).Seconds())
+		t3 = time.Now()
 		for k := 0; k < nCancel; k++ {
-			pp.run(c19Scenario{mode: "cancel", tr: time.Duration(c.Rng.Intn(2)) * time.Millisecond, cancelK: 1 + c.Rng.Intn(12),
-				plan: c19Plan{DevDelay: time.Duration(c.Rng.Intn(3)) * time.Millisecond, OwnDelay: time.Duration(c.Rng.Intn(3)) * time.Millisecond, NMods: mods[c.Rng.Intn(2)], DevSize: 65536, OwnSize: 65536,
+			ck, nm := 1+c.Rng.Intn(12), mods[c.Rng.Intn(2)]
+			if k%3 == 0 {
+				// while the devmod goroutine is still writing (its list needs a second message)
+				ck, nm = 1, 20
+			}
+			pp.run(c19Scenario{mode: "cancel", tr: time.Duration(c.Rng.Intn(2)) * time.Millisecond, cancelK: ck,
+				plan: c19Plan{DevDelay: time.Duration(c.Rng.Intn(3)) * time.Millisecond, OwnDelay: time.Duration(c.Rng.Intn(3)) * time.Millisecond, NMods: nm, DevSize: 65536, OwnSize: 65536,
 					Block: c.Rng.Intn(2) == 0, InYield: c.Rng.Intn(2) == 0}})
 		}
+		c.Note("part 2, cancellations: %.1fs", time.Since(t3).Seconds())
+		t3 = time.Now()
 		for k := 0; k < nFail; k++ {
 			pp.run(c19Scenario{mode: "tr-fail", tr: time.Duration(c.Rng.Intn(2)) * time.Millisecond,
 				plan: c19Plan{BlockInReceive: true, DevDelay: time.Duration(c.Rng.Intn(3)) * time.Millisecond, NMods: mods[c.Rng.Intn(2)], DevSize: 1024, OwnSize: []int{0, 1024, 20000}[c.Rng.Intn(3)],
 					Block: false}})
 		}
+		c.Note("part 2, transport failures: %.1fs", time.Since(t3).Seconds())
+		t3 = time.Now()
 		for k := 0; k < nFsim; k++ {
-			pp.fsimRun([]int{3000, 70000}[k%2], k%2 == 0 || k%3 == 0, time.Duration(5+c.Rng.Intn(30))*time.Millisecond)
+			pp.fsimRun([]int{3000, 70000}[k%2], k%2 == 0 || k%3 == 0, 2, time.Duration(5+c.Rng.Intn(30))*time.Millisecond)
 		}
+		pp.sideProbe()
+		c.Note("part 2, fsim modules and side probe: %.1fs", time.Since(t3).Seconds())
 		dp.e.Close()
 	}
 	c.Note("part 2: %.1fs", time.Since(t2).Seconds())
